@@ -399,6 +399,53 @@ def _unopenable_file(pid):
     return p
 
 
+def write_big_io_cases(path, seed, tier, what):
+    """Random large graphs for the writers/loaders (records validated by BinTrace / TextTrace):
+    more than 255 / 256 vertices (index and label bytes 0xFF, multi-byte indices), more than 512
+    and 4096 edges (any plausible internal buffer), and hand-made text with very long comment lines."""
+    rng = random.Random(seed + 13)
+    q = tier == "quick"
+    out = []
+    if what == "bin":
+        for d in (True, False):
+            out.append({"k": "big_bin", "dir": d, "w": 0, "n": 300, "m": 700 if q else 5000, "seed": rng.randint(1, 10 ** 6), "high": True})
+            out.append({"k": "big_bin", "dir": d, "w": 2, "n": 258, "m": 400, "seed": rng.randint(1, 10 ** 6), "high": True})
+            out.append({"k": "big_bin", "dir": d, "w": 4, "n": 70, "m": 300, "seed": rng.randint(1, 10 ** 6)})
+            if not q:
+                out.append({"k": "big_bin", "dir": d, "w": 1, "n": 600, "m": 1200, "seed": rng.randint(1, 10 ** 6), "high": True})
+                out.append({"k": "big_bin", "dir": d, "w": 8, "n": 80, "m": 4500, "seed": rng.randint(1, 10 ** 6)})
+                out.append({"k": "big_bin", "dir": d, "w": 0, "n": 70000, "m": 50, "seed": rng.randint(1, 10 ** 6), "high": True})
+    else:
+        for d in (True, False):
+            out.append({"k": "big_text", "dir": d, "codec": "none", "n": 300, "m": 600 if q else 5000, "seed": rng.randint(1, 10 ** 6), "high": True})
+            out.append({"k": "big_text", "dir": d, "codec": "string", "n": 40, "m": 150, "seed": rng.randint(1, 10 ** 6)})
+            out.append({"k": "big_text", "dir": d, "codec": "int", "n": 120, "m": 200 if q else 4500, "seed": rng.randint(1, 10 ** 6)})
+            # hand-made: long comments (beyond 256 / 1024 / 4096 characters), long runs of whitespace
+            long1 = "#" + " x" * 200
+            long2 = "# " + "0 1 " * 400
+            long3 = "#" + "y" * 5000
+            lines = [long1, "0 1", long2, "   2\t\t\t   0" + " " * 300, long3, "10   3", "#", "3 10"]
+            out.append({"k": "big_text", "dir": d, "codec": "none", "lines": lines})
+            out.append({"k": "big_text", "dir": d, "codec": "string",
+                        "lines": ["# c", "0 1 hello world", long2, "1 2 " + "a", "2 2 #x", "7 0 hello world" + " "]})
+    with open(path, "w") as f:
+        for c in out:
+            f.write(json.dumps(c) + "\n")
+    return len(out)
+
+
+def _big_io(pid, tier, seed, what, io):
+    d = vf.fresh_dir(os.path.join(vf.RUN, pid, "bigfiles"))
+    p = os.path.join(d, "big.ndjson")
+    write_big_io_cases(p, seed, tier, what)
+    r = algo.run_ah_on_file(pid, "big-" + what, p, io, seed)
+    viol = []
+    if r.get("records"):
+        v = algo.validate_io_records(pid, "big-" + what, r["records"])
+        r["validation"] = v
+    return r
+
+
 def c13(pid, tier, seed):
     q = tier == "quick"
     T = algo.TextCases
@@ -418,7 +465,31 @@ def c13(pid, tier, seed):
                  T("t-named2-small", True, "int", "named", maxedges=2, lineset="small")]
     io = vf.build_ioh("o1")
     results, violations = run_all(pid, sets, [], seed, io, validate=False)
-    return violations, coverage_of(results), IO_ASSUMPTIONS
+    big = _big_io(pid, tier, seed, "text", io)
+    violations += _io_violations(pid, big)
+    return violations, coverage_of(results + [big]), IO_ASSUMPTIONS
+
+
+def _io_violations(pid, r):
+    out = []
+    a = r.get("ah")
+    if a is None and "crash" in r:
+        path = os.path.join(vf.REPLAYS, "%s-%s-crash.json" % (pid, r["cases"]))
+        os.makedirs(vf.REPLAYS, exist_ok=True)
+        with open(path, "w") as f:
+            json.dump(r["crash"], f, indent=1)
+        out.append({"replay": path, "what": "harness died on the large-file cases (rc %s)" % r["crash"].get("rc")})
+    elif a is not None:
+        for p, note in zip(a["replays"], a["fail_notes"]):
+            out.append({"replay": p, "what": note[:400]})
+    for k, rej in enumerate((r.get("validation") or {}).get("rejected", [])[:3]):
+        path = os.path.join(vf.REPLAYS, "%s-%s-record%d.json" % (pid, r["cases"], k))
+        os.makedirs(vf.REPLAYS, exist_ok=True)
+        with open(path, "w") as f:
+            json.dump({"kind": "record", "group": rej["group"], "index": rej["index"], "record": rej["record"]}, f, indent=1)
+        out.append({"replay": path, "what": "large-file record rejected by TLC (%s): n=%s edges=%s" %
+                    (rej["group"], rej["record"].get("n", rej["record"].get("loaded_n")), rej["record"].get("loaded_en"))})
+    return out
 
 
 def c14(pid, tier, seed):
@@ -436,7 +507,9 @@ def c14(pid, tier, seed):
                  B("b-rec-%s-w0" % nm, d, 0, "records", maxedges=3)]
     io = vf.build_ioh("o1")
     results, violations = run_all(pid, sets, [("unopenable", _unopenable_file(pid), None)], seed, io, validate=False)
-    return violations, coverage_of(results), IO_ASSUMPTIONS
+    big = _big_io(pid, tier, seed, "bin", io)
+    violations += _io_violations(pid, big)
+    return violations, coverage_of(results + [big]), IO_ASSUMPTIONS
 
 
 def c15(pid, tier, seed):
